@@ -18,8 +18,8 @@ GNext ==
      /\ \/ \E p \in 1..n : \E ss \in Pick(2, Chains(p)) : PushBegin(p, ss, "ok")
         \/ \E p \in Pick(1, 1..n) : \E ss \in Pick(1, Chains(p)) : \E kd \in Pick(1, {"badaward", "badsig1", "badsig2"}) : PushBegin(p, ss, kd)
         \/ \E b \in Pick(1, 2..n) : RePush(b)
-        \/ \E t \in {t \in Txs : t \notin pool /\ ~OnChain(t, ptr) /\ ~Confirmed(t) /\ Valid(St, t, LHeight)} : ESubmit(t)
-        \/ \E t \in Pick(1, {t \in Txs : ~OnChain(t, ptr) /\ ~Confirmed(t)}) : ESubmit(t)
+        \/ \E t \in {t \in Txs : t \notin pool /\ ~OnChain(t, ptr) /\ ~Confirmed(t) /\ Valid(St, t, LHeight)} : ESubmit(t, "*")
+        \/ \E t \in Pick(1, {t \in Txs : ~OnChain(t, ptr) /\ ~Confirmed(t)}) : ESubmit(t, "*")
         \/ (ptr = ltip /\ pool # {} /\ EMine)
         \/ \E x \in Pick(1, {0}) : (ptr = ltip /\ EMine)
         \/ Tick
